@@ -5,12 +5,12 @@ package main
 //
 // The functions listed in qoSpecs are translated statement by statement into definitions gq_<Receiver>_<name>:
 // withErr, withIndex, Contains, Len, ColumnNames, checkColumns, Select, Drop, Slice, setColumn, Copy, constCount,
-// createColumn, New, apply0, apply1, apply2, Apply, WithRowNums, FilteredApply (qframe.go) and NewStringSet,
-// StringSet.Contains (internal/strings/set.go).  coq/Proofs/GenQFrameOpsProofs.v proves every generated definition equal — through the
+// createColumn, New, apply0, apply1, apply2, Apply, WithRowNums, FilteredApply, Sort, Equals, Eval, ColumnTypes,
+// ColumnTypeMap (qframe.go) and NewStringSet, StringSet.Contains (internal/strings/set.go).  coq/Proofs/GenQFrameOpsProofs.v proves every generated definition equal — through the
 // representation relation stated there — to the hand-written model function of coq/Model/Ops.v / Model/Frame.v that
 // the proofs of the properties and the frameops engine use (with_err, with_ix, contains, frame_len, col_names, select,
 // drop, slice, set_column, copy, create_column, new_frame, apply0, apply1, apply2, apply, with_row_nums,
-// filtered_apply), so that an edit of
+// filtered_apply, SortFrame.sort_frame, equals, Eval.eval, col_type), so that an edit of
 // one of these Go functions changes the generated text and breaks a named theorem T1_qframe_<name> of
 // coq/Properties/T1QFrame.v.
 //
@@ -27,14 +27,21 @@ package main
 //	            copies except the backing stores of slices and maps, see "freshness".
 //	abstract    A = a row id (element of index.Int; no arithmetic on it; used as a position s[i] it goes through the
 //	            variable id_int), E = an error value, C = a column.Column value (col_nil its nil), F64 = float64
-//	            (f64_zero its zero), EC = ecolumn.Column, CF = newqf.ConfigFunc, CL = FilterClause, OTHER = a value of
-//	            a dynamic type no type switch names.
+//	            (f64_zero its zero), EC = ecolumn.Column, CF = newqf.ConfigFunc, CL = FilterClause, CMP =
+//	            column.Comparable, CTX = *eval.Context, ECF = eval.ConfigFunc, EXPR = Expression, DT = types.DataType
+//	            (dt_zero its zero), OTHER = a value of a dynamic type no type switch names.
 //	boundary    Nothing below qframe.go is translated here.  The functions and methods listed in qoBoundary /
 //	            qoColMethods / qoFrameBoundary are section variables <pkg>_<Fn> / col_<Method> / qf_<method>, typed
 //	            from their Go signatures (text-matched), answering outcome T (they may panic): the per-type column
-//	            constructors icolumn.New .. ecolumn.NewConst, scolumn.NewBytes, Column.Len / Apply1 / Apply2,
-//	            index.NewAscending, newqf.NewConfig; QFrame.Filter (translated by filterclause.go over an abstract
-//	            frame type).  sort.Strings(s) is the variable sort_strings.
+//	            constructors icolumn.New .. ecolumn.NewConst, scolumn.NewBytes, Column.Len / Apply1 / Apply2 /
+//	            Comparable / Equals / DataType, index.NewAscending, newqf.NewConfig, eval.NewConfig; QFrame.Filter
+//	            (translated by filterclause.go over an abstract frame type), expr.execute of an Expression
+//	            (translated by exprtree.go over an abstract frame type: expr_execute).  sort.Strings(s) is the
+//	            variable sort_strings; fmt.Sprintf(format, effect-free args..) used as a VALUE is gq_sprintf format.
+//	sorter      sorter := qfsort.New(ix, columns); sorter.Sort() (both text-matched; internal/sort is translated by
+//	            sorter.go) sorts ix in place through the Sorter that shares it: do t <- qfsort_Sort ix columns; ix :=
+//	            t, accepted only when ix is fresh — x := y.withIndex(z.Copy()) makes x.index fresh (Int.Copy and
+//	            withIndex text-matched).  A Sort that sorts qf.index itself is rejected, not translated.
 //	            A variable is declared in the block of the first function that uses it.
 //	errors      error -> option E (nil = None).  qerrors.New(op, reason, args...) -> Some (new_error op reason):
 //	            the format arguments only reach the message text; they must be free of effects (identifiers,
@@ -49,7 +56,8 @@ package main
 //	            is outside the model); x > y is (y <? x); len(..) -> Z.of_nat (length ..); ix.Len() (body
 //	            text-matched) likewise; uint32(e) -> gq_u32 e (wraps).
 //	slices      []T -> list T; nil and the empty slice are both [].  make([]T, n [, c]) -> gq_make zero n c (Panic
-//	            for a negative length or c < n), make([]T, 0) -> []; s[i] -> gq_index s i, s[i] = v -> gq_update
+//	            for a negative length or c < n; gq_make0 c for length 0 of an element type without zero), make([]T, 0)
+//	            -> []; s[i] -> gq_index s i, s[i] = v -> gq_update
 //	            (Panic outside the range); append(s, x) -> s ++ [x]; copy(d, s) -> gq_copy d s; f(s...) passes s;
 //	            s[a:b] -> gq_slice s a b: Panic unless 0 <= a <= b <= len(s).  Capacities are not represented: Go
 //	            accepts b up to cap(s); the translation is conservative there (the theorem of Slice shows the
@@ -57,7 +65,7 @@ package main
 //	maps        map[string]V -> gq_map V = list (bytes * V), an association list WITHOUT repeated keys in the
 //	            order of first insertion: m[k] -> gq_mget_or zero m k, v, ok := m[k] -> gq_mget_or / gq_mhas,
 //	            m[k] = v -> gq_mset (replaces in place or appends), delete(m, k) -> gq_mdel, len(m) -> length,
-//	            make(map..) -> [].  StringSet is map[string]struct{} (ss.Add(s), body text-matched, is gq_mset).
+//	            make(map..) and map[string]T{} -> [].  StringSet is map[string]struct{} (ss.Add(s), body text-matched, is gq_mset).
 //	            for k, v := range m visits the entries in an order Go leaves open and may change from one
 //	            statement to the next: every range-over-map statement has its own section variable
 //	            gq_<f>_orderN : forall V, gq_map V -> gq_map V, and the loop ranges over  gq_<f>_orderN _ m.  The
@@ -80,7 +88,8 @@ package main
 //	pointers    config *newqf.Config is a value-result parameter: the callee answers the new Config as an extra
 //	            result and the caller continues with it (the pointer comes from newqf.NewConfig, a fresh struct
 //	            nobody else holds).
-//	results     every function answers outcome T (Panic = Go panic); several results are a tuple.  There is NO
+//	results     every function answers outcome T (Panic = Go panic); several results are a tuple; named results are
+//	            accepted when the body never mentions them.  There is NO
 //	            fuel: every loop is a range loop over a slice or map evaluated once, nothing is recursive.
 //	statements  x := e; a, b := e1, e2; v, ok := m[k]; a, b := f(..); a, b = f(..); var x T; lvalue = e (paths of
 //	            fields and indices); x++; copy(..); delete(..); ss.Add(..); sort.Strings(..) -> let / do.
@@ -129,14 +138,37 @@ var qoSpecs = []qoSpec{
 	{qoRoot, "constCount"}, {qoRoot, "createColumn"}, {qoRoot, "New"},
 	{qoRoot, "QFrame.apply0"}, {qoRoot, "QFrame.apply1"}, {qoRoot, "QFrame.apply2"}, {qoRoot, "QFrame.Apply"},
 	{qoRoot, "QFrame.WithRowNums"}, {qoRoot, "QFrame.FilteredApply"},
+	{qoRoot, "QFrame.Sort"}, {qoRoot, "QFrame.Equals"}, {qoRoot, "QFrame.Eval"},
+	{qoRoot, "QFrame.ColumnTypes"}, {qoRoot, "QFrame.ColumnTypeMap"},
 }
 
 // the methods of column.Column the translated functions call (below the abstraction boundary): the text of the
 // method in the interface declaration
 var qoColMethods = map[string]string{
-	"Len":    "func() int",
-	"Apply1": "func(fn interface{}, ix index.Int) (interface{}, error)",
-	"Apply2": "func(fn interface{}, s2 Column, ix index.Int) (Column, error)",
+	"Len":        "func() int",
+	"Apply1":     "func(fn interface{}, ix index.Int) (interface{}, error)",
+	"Apply2":     "func(fn interface{}, s2 Column, ix index.Int) (Column, error)",
+	"Comparable": "func(reverse, equalNull, nullLast bool) Comparable",
+	"Equals":     "func(index index.Int, other Column, otherIndex index.Int) bool",
+	"DataType":   "func() types.DataType",
+}
+
+// their parameter and result types in the translation
+func qoColMethodSig(m string) (params []*qoT, res *qoT) {
+	ids := qoSlice(qoK("id"))
+	switch m {
+	case "Apply1":
+		return []*qoT{qoK("dyn"), ids}, &qoT{k: "tuple", parts: []*qoT{qoK("dyn"), qoK("err")}}
+	case "Apply2":
+		return []*qoT{qoK("dyn"), qoK("col"), ids}, &qoT{k: "tuple", parts: []*qoT{qoK("col"), qoK("err")}}
+	case "Comparable":
+		return []*qoT{qoK("bool"), qoK("bool"), qoK("bool")}, qoK("cmp")
+	case "Equals":
+		return []*qoT{ids, qoK("col"), ids}, qoK("bool")
+	case "DataType":
+		return nil, qoK("dtype")
+	}
+	return nil, nil
 }
 
 // the methods of QFrame that are called but not translated here (section variables qf_<name>)
@@ -145,11 +177,11 @@ var qoFrameBoundary = []struct{ fn, sig string }{
 }
 
 // the structs read from the source: the name as package qframe writes it, the package, the declared name
-var qoStructSpecs = []struct{ key, pkg, name string }{
-	{"namedColumn", qoRoot, "namedColumn"}, {"QFrame", qoRoot, "QFrame"},
-	{"ConstString", qoRoot, "ConstString"}, {"ConstInt", qoRoot, "ConstInt"}, {"ConstFloat", qoRoot, "ConstFloat"}, {"ConstBool", qoRoot, "ConstBool"},
-	{"newqf.Config", "config/newqf", "Config"}, {"qfstrings.StringBlob", qoStrPkg, "StringBlob"},
-	{"Instruction", qoRoot, "Instruction"},
+var qoStructSpecs = []struct{ key, pkg, name, coq string }{
+	{"namedColumn", qoRoot, "namedColumn", ""}, {"QFrame", qoRoot, "QFrame", ""},
+	{"ConstString", qoRoot, "ConstString", ""}, {"ConstInt", qoRoot, "ConstInt", ""}, {"ConstFloat", qoRoot, "ConstFloat", ""}, {"ConstBool", qoRoot, "ConstBool", ""},
+	{"newqf.Config", "config/newqf", "Config", ""}, {"qfstrings.StringBlob", qoStrPkg, "StringBlob", ""},
+	{"Instruction", qoRoot, "Instruction", ""}, {"Order", qoRoot, "Order", ""}, {"eval.Config", "config/eval", "Config", "EvalConfig"},
 }
 
 // the functions below the abstraction boundary: package, name, the signature the translation stands for
@@ -163,11 +195,16 @@ var qoBoundary = []struct{ pkg, fn, sig string }{
 	{"internal/ecolumn", "NewConst", "func NewConst(val *string, count int, values []string) (Column, error)"},
 	{"internal/index", "NewAscending", "func NewAscending(size uint32) Int"},
 	{"config/newqf", "NewConfig", "func NewConfig(fns []ConfigFunc) *Config"},
+	{"config/eval", "NewConfig", "func NewConfig(ff []ConfigFunc) Config"},
 }
 
 // the text the fixed vocabulary stands for (printed by go/printer)
 var qoVocabulary = []struct{ pkg, fn, text string }{
 	{"internal/index", "Int.Len", "func (ix Int) Len() int {\n\treturn len(ix)\n}"},
+	{"internal/index", "Int.Copy", "func (ix Int) Copy() Int {\n\tnewIndex := make(Int, len(ix))\n\tcopy(newIndex, ix)\n\treturn newIndex\n}"},
+	{"internal/sort", "New", "func New(ix index.Int, columns []column.Comparable) Sorter {\n\treturn Sorter{index: ix, columns: columns}\n}"},
+	{"internal/sort", "Sorter.Sort", "func (s Sorter) Sort() {\n\tn := s.Len()\n\tquickSort(s, 0, n, maxDepth(n))\n}"},
+	{qoRoot, "QFrame.withIndex", "func (qf QFrame) withIndex(ix index.Int) QFrame {\n\treturn QFrame{Err: qf.Err, columns: qf.columns, columnsByName: qf.columnsByName, index: ix}\n}"},
 	{qoStrPkg, "StringSet.Add", "func (ss StringSet) Add(s string) {\n\tss[s] = struct{}{}\n}"},
 	{qoRoot, "unknownCol", "func unknownCol(c string) string {\n\treturn fmt.Sprintf(`unknown column: \"%s\"`, c)\n}"},
 	{"qerrors", "New", "func New(operation, reason string, params ...interface{}) Error"},
@@ -183,6 +220,7 @@ var qoTypeTexts = []struct{ pkg, name, text string }{
 	{"types", "DataSlice", "interface{}"},
 	{"types", "DataFuncOrBuiltInId", "interface{}"},
 	{"types", "ColumnName", "string"},
+	{"config/eval", "ConfigFunc", "func(*Config)"},
 	{"config/newqf", "ConfigFunc", "func(c *Config)"},
 }
 
@@ -204,6 +242,8 @@ Definition gq_u32 (x : Z) : Z := x mod 4294967296.
 (* make([]T, n, c), s[i], s[i] = v, copy(d, s), s[a:b] *)
 Definition gq_make {T : Type} (zero : T) (n c : Z) : outcome (list T) :=
   if (n <? 0) || (c <? n) then Panic else Ok (repeat zero (Z.to_nat n)).
+Definition gq_make0 {T : Type} (c : Z) : outcome (list T) :=
+  if c <? 0 then Panic else Ok [].
 Definition gq_index {T : Type} (s : list T) (i : Z) : outcome T :=
   if i <? 0 then Panic else idx s (Z.to_nat i).
 Definition gq_update {T : Type} (s : list T) (i : Z) (v : T) : outcome (list T) :=
@@ -285,7 +325,7 @@ func (t *qoT) same(u *qoT) bool {
 }
 
 // the abstract types of the section, in the order in which the generated types take them
-var qoTypeParams = []string{"A", "E", "C", "F64", "EC", "OTHER", "CF", "CL"}
+var qoTypeParams = []string{"A", "E", "C", "F64", "EC", "OTHER", "CF", "CL", "CMP", "CTX", "ECF", "EXPR", "DT"}
 
 // params: the abstract types a translation type mentions
 func (t *qoT) params(into map[string]bool) {
@@ -306,6 +346,16 @@ func (t *qoT) params(into map[string]bool) {
 		t.elem.params(into)
 	case "clause":
 		into["CL"] = true
+	case "cmp":
+		into["CMP"] = true
+	case "ctx":
+		into["CTX"] = true
+	case "ecf":
+		into["ECF"] = true
+	case "expr":
+		into["EXPR"] = true
+	case "dtype":
+		into["DT"] = true
 	case "slice", "map":
 		t.elem.params(into)
 	case "tuple":
@@ -371,6 +421,16 @@ func (t *qoT) coq() string {
 		return "(gq_func0 " + t.elem.coq() + ")"
 	case "clause":
 		return "CL"
+	case "cmp":
+		return "CMP"
+	case "ctx":
+		return "CTX"
+	case "ecf":
+		return "ECF"
+	case "expr":
+		return "EXPR"
+	case "dtype":
+		return "DT"
 	case "id":
 		return "A"
 	case "unit":
@@ -453,6 +513,8 @@ func (t *qoT) zero() (string, bool) {
 		return "0%N", true
 	case "f64":
 		return "f64_zero", true
+	case "dtype":
+		return "dt_zero", true
 	case "err", "optstr":
 		return "None", true
 	case "col":
@@ -545,6 +607,14 @@ func qoResolve(pkg, src string) *qoT {
 			return qoK("string")
 		case "FilterClause":
 			return qoK("clause")
+		case "column.Comparable":
+			return qoK("cmp")
+		case "eval.ConfigFunc":
+			return qoK("ecf")
+		case "Expression":
+			return qoK("expr")
+		case "types.DataType":
+			return qoK("dtype")
 		case "qfstrings.StringSet":
 			return &qoT{k: "map", elem: qoK("unit"), sname: "StringSet"}
 		case "*newqf.Config":
@@ -570,6 +640,14 @@ func qoResolve(pkg, src string) *qoT {
 		return qoSlice(qoK("id"))
 	case pkg == "config/newqf" && src == "ConfigFunc":
 		return qoK("cf")
+	case pkg == "config/eval" && src == "ConfigFunc":
+		return qoK("ecf")
+	case pkg == "config/eval" && src == "*Context":
+		return qoK("ctx")
+	case pkg == "config/eval" && src == "Config":
+		if qoStructOf("eval.Config") != nil {
+			return &qoT{k: "struct", sname: "eval.Config"}
+		}
 	case pkg == "config/newqf" && src == "*Config":
 		if qoStructOf("newqf.Config") != nil {
 			return &qoT{k: "struct", sname: "newqf.Config", ptr: true}
@@ -605,6 +683,9 @@ func qoLoadStructs() bool {
 			continue
 		}
 		s := &qoStruct{key: sp.key, name: sp.name}
+		if sp.coq != "" {
+			s.name = sp.coq
+		}
 		qoStructs = append(qoStructs, s)
 		for _, fl := range st.Fields.List {
 			src := gcSrc(p.fset, fl.Type)
@@ -776,6 +857,8 @@ type qoTr struct {
 	nloops int
 	norder int
 	fresh  map[string]bool
+	// sorter := qfsort.New(ix, columns): the index path and the text of the columns, by variable name
+	sorters map[string][2]interface{}
 	// the variables passed for the value-result pointer parameters of the last translated call
 	lastPtrArgs []string
 	inReturn    bool
@@ -1090,6 +1173,11 @@ func (t *qoTr) expr(e ast.Expr, c qoCtx, pre *[]string) (string, *qoT) {
 		if x.Type != nil && t.src(x.Type) == "struct{}" && len(x.Elts) == 0 {
 			return "tt", qoK("unit")
 		}
+		if _, isMap := x.Type.(*ast.MapType); isMap && len(x.Elts) == 0 { // map[string]T{}: a new empty map
+			if ty := t.resolve(x.Type); ty.k == "map" {
+				return "[]", ty
+			}
+		}
 		var st *qoStruct
 		if x.Type != nil {
 			st = qoStructOf(t.src(x.Type))
@@ -1395,10 +1483,14 @@ func (t *qoTr) call(x *ast.CallExpr, c qoCtx, pre *[]string) (string, *qoT) {
 					t.coerce(x.Args[2], cp, tc, qoK("int"))
 				}
 				z, ok := ty.elem.zero()
+				v := t.tmp()
+				if !ok && n == "0" {
+					*pre = append(*pre, fmt.Sprintf("do %s <- gq_make0 %s;", v, cp))
+					return v, ty
+				}
 				if !ok {
 					t.fail(x, "make of a slice whose element has no zero in the scheme: %s", t.src(x))
 				}
-				v := t.tmp()
 				*pre = append(*pre, fmt.Sprintf("do %s <- gq_make %s %s %s;", v, z, n, cp))
 				return v, ty
 			}
@@ -1450,6 +1542,17 @@ func (t *qoTr) call(x *ast.CallExpr, c qoCtx, pre *[]string) (string, *qoT) {
 			a, ta := t.expr(x.Args[0], c, pre)
 			t.coerce(x.Args[0], a, ta, qoK("string"))
 			return "(unknownCol " + a + ")", qoK("string")
+		}
+	}
+	if fun == "fmt.Sprintf" && len(x.Args) >= 1 { // the text: represented by its format, the arguments free of effects
+		if lit, isLit := x.Args[0].(*ast.BasicLit); isLit && lit.Kind == token.STRING {
+			for _, p := range x.Args[1:] {
+				if !qoEffectFree(p) {
+					t.fail(p, "a format argument that is not free of effects: %s", t.src(p))
+				}
+			}
+			a, _ := t.expr(lit, c, pre)
+			return "(gq_sprintf " + a + ")", qoK("string")
 		}
 	}
 	if fun == "uint32" && len(x.Args) == 1 {
@@ -1511,12 +1614,10 @@ func (t *qoTr) call(x *ast.CallExpr, c qoCtx, pre *[]string) (string, *qoT) {
 		v := t.tmp()
 		*pre = append(*pre, fmt.Sprintf("do %s <- col_Len %s;", v, r))
 		return v, qoK("int")
-	case tr.k == "col" && (m == "Apply1" || m == "Apply2"):
-		params := []*qoT{qoK("dyn"), qoSlice(qoK("id"))}
-		res := &qoT{k: "tuple", parts: []*qoT{qoK("dyn"), qoK("err")}}
-		if m == "Apply2" {
-			params = []*qoT{qoK("dyn"), qoK("col"), qoSlice(qoK("id"))}
-			res = &qoT{k: "tuple", parts: []*qoT{qoK("col"), qoK("err")}}
+	case tr.k == "col" && m != "Len" && qoColMethods[m] != "":
+		params, res := qoColMethodSig(m)
+		if res == nil {
+			break
 		}
 		if len(x.Args) != len(params) {
 			break
@@ -1588,6 +1689,24 @@ func (t *qoTr) call(x *ast.CallExpr, c qoCtx, pre *[]string) (string, *qoT) {
 		if m == "Len" && len(x.Args) == 0 {
 			return "(Z.of_nat (length " + r + "))", qoK("int")
 		}
+		if m == "Copy" && len(x.Args) == 0 { // a fresh copy (body text-matched)
+			return r, tr
+		}
+	case tr.k == "expr" && m == "execute" && len(x.Args) == 2:
+		name := "expr_execute"
+		fr := &qoT{k: "struct", sname: "QFrame"}
+		res := &qoT{k: "tuple", parts: []*qoT{fr, qoK("string")}}
+		if !qoBoundaryDeclared[name] {
+			qoBoundaryDeclared[name] = true
+			t.f.bvars = append(t.f.bvars, fmt.Sprintf("Variable %s : EXPR -> %s -> CTX -> outcome %s.   (* expr.execute(qf, ctx) of an Expression: translated by exprtree.go over an abstract frame type *)", name, fr.coq(), res.coq()))
+		}
+		a0, t0 := t.expr(x.Args[0], c, pre)
+		a1, t1 := t.expr(x.Args[1], c, pre)
+		a0 = t.coerce(x.Args[0], a0, t0, fr)
+		a1 = t.coerce(x.Args[1], a1, t1, qoK("ctx"))
+		v := t.tmp()
+		*pre = append(*pre, fmt.Sprintf("do %s <- %s %s %s %s;", v, name, r, a0, a1))
+		return v, res
 	}
 	t.fail(x, "call outside the scheme: %s", t.src(x))
 	return "0", qoBad
@@ -1740,6 +1859,11 @@ func (t *qoTr) store(e ast.Expr, val string, c qoCtx, out *[]string) {
 }
 
 func qoIsMake(e ast.Expr) bool {
+	if cl, ok := e.(*ast.CompositeLit); ok && len(cl.Elts) == 0 {
+		if _, isMap := cl.Type.(*ast.MapType); isMap {
+			return true
+		}
+	}
 	ce, ok := e.(*ast.CallExpr)
 	if !ok {
 		return false
@@ -1752,6 +1876,20 @@ func qoIsMake(e ast.Expr) bool {
 func (t *qoTr) noteAssign(lhs ast.Expr, rhs ast.Expr) {
 	l := t.src(lhs)
 	keep := false
+	if ce, ok := rhs.(*ast.CallExpr); ok && len(ce.Args) == 1 { // x := y.withIndex(fresh): x.index is fresh (body text-matched)
+		if se, ok := ce.Fun.(*ast.SelectorExpr); ok && se.Sel.Name == "withIndex" {
+			arg := ce.Args[0]
+			isCopy := false
+			if ac, ok := arg.(*ast.CallExpr); ok && len(ac.Args) == 0 {
+				if as, ok := ac.Fun.(*ast.SelectorExpr); ok && as.Sel.Name == "Copy" {
+					isCopy = true
+				}
+			}
+			if isCopy || qoIsMake(arg) {
+				defer func() { t.fresh[l+".index"] = true }()
+			}
+		}
+	}
 	if qoIsMake(rhs) {
 		keep = true
 	} else if ce, ok := rhs.(*ast.CallExpr); ok && t.src(ce.Fun) == "append" && len(ce.Args) > 0 && t.src(ce.Args[0]) == l && t.fresh[l] {
@@ -1772,6 +1910,22 @@ func (t *qoTr) simple(st ast.Stmt, c *qoCtx) ([]string, bool) {
 	var out []string
 	switch s := st.(type) {
 	case *ast.AssignStmt:
+		if s.Tok == token.DEFINE && len(s.Lhs) == 1 && len(s.Rhs) == 1 {
+			// sorter := qfsort.New(ix, columns): the Sorter shares ix; sorter.Sort() below sorts it in place
+			if ce, ok := s.Rhs[0].(*ast.CallExpr); ok && t.src(ce.Fun) == "qfsort.New" && len(ce.Args) == 2 {
+				if id, ok := s.Lhs[0].(*ast.Ident); ok {
+					_, ti := t.lvalue(ce.Args[0], *c)
+					cm, tc := t.pure(ce.Args[1], *c)
+					t.coerce(ce.Args[0], "", ti, qoSlice(qoK("id")))
+					t.coerce(ce.Args[1], cm, tc, qoSlice(qoK("cmp")))
+					if t.sorters == nil {
+						t.sorters = map[string][2]interface{}{}
+					}
+					t.sorters[id.Name] = [2]interface{}{ce.Args[0], cm}
+					return out, true
+				}
+			}
+		}
 		if s.Tok == token.DEFINE {
 			// v, ok := m[k]
 			if len(s.Lhs) == 2 && len(s.Rhs) == 1 {
@@ -1959,6 +2113,22 @@ func (t *qoTr) simple(st ast.Stmt, c *qoCtx) ([]string, bool) {
 			t.coerce(ce.Args[1], k, tk, qoK("string"))
 			t.store(ce.Args[0], fmt.Sprintf("(gq_mdel %s %s)", d, k), *c, &out)
 			return out, true
+		}
+		if se, ok := ce.Fun.(*ast.SelectorExpr); ok && se.Sel.Name == "Sort" && len(ce.Args) == 0 {
+			if id, ok := se.X.(*ast.Ident); ok && t.sorters[id.Name][0] != nil {
+				ixE := t.sorters[id.Name][0].(ast.Expr)
+				cm := t.sorters[id.Name][1].(string)
+				d, _ := t.lvalue(ixE, *c)
+				needFresh(ixE)
+				if !qoBoundaryDeclared["qfsort_Sort"] {
+					qoBoundaryDeclared["qfsort_Sort"] = true
+					t.f.bvars = append(t.f.bvars, "Variable qfsort_Sort : (list A) -> (list CMP) -> outcome (list A).   (* qfsort.New(ix, columns).Sort(): ix sorted in place; translated by sorter.go *)")
+				}
+				v := t.tmp()
+				out = append(out, fmt.Sprintf("do %s <- qfsort_Sort %s %s;", v, d, cm))
+				t.store(ixE, v, *c, &out)
+				return out, true
+			}
 		}
 		if fun == "sort.Strings" && len(ce.Args) == 1 { // sorts in place: the variable sort_strings
 			if _, isVar := c.lookup("sort"); !isVar {
@@ -2424,11 +2594,33 @@ func qoSignature(p *pkgInfo, f *qoFunc) bool {
 		return false
 	}
 	for _, fl := range fd.Type.Results.List {
-		if len(fl.Names) != 0 {
-			t.fail(fd, "named results")
-			return false
+		n := len(fl.Names)
+		for _, id := range fl.Names { // named results: accepted when the body never mentions them and never returns bare
+			used := false
+			ast.Inspect(fd.Body, func(m ast.Node) bool {
+				switch y := m.(type) {
+				case *ast.Ident:
+					if y.Name == id.Name {
+						used = true
+					}
+				case *ast.ReturnStmt:
+					if len(y.Results) == 0 {
+						used = true
+					}
+				}
+				return true
+			})
+			if used {
+				t.fail(fd, "named results that the body uses")
+				return false
+			}
 		}
-		f.res = append(f.res, t.resolve(fl.Type))
+		if n == 0 {
+			n = 1
+		}
+		for i := 0; i < n; i++ {
+			f.res = append(f.res, t.resolve(fl.Type))
+		}
 	}
 	return !t.bad
 }
@@ -2619,17 +2811,17 @@ func genQFrameOps() string {
 			s := qoStructOf(sp.key)
 			if s == nil {
 				if !late {
-					block("gq_"+sp.name, "", false)
+					block("gq_"+sp.name+sp.coq, "", false)
 				}
 				continue
 			}
 			if usesDyn(s) == late {
-				block("gq_"+sp.name, qoRecord(s), structsOk)
+				block("gq_"+s.name, qoRecord(s), structsOk)
 			}
 		}
 	}
 	b.WriteString(`Section GenQFrameOps.
-Context {A E C F64 EC OTHER CF CL : Type}.
+Context {A E C F64 EC OTHER CF CL CMP CTX ECF EXPR DT : Type}.
 Variable col_nil : C.                               (* the nil column.Column *)
 Variable new_error : bytes -> bytes -> E.           (* qerrors.New(operation, reason, ...) *)
 Variable propagate : bytes -> option E -> E.        (* qerrors.Propagate(operation, err) *)
@@ -2639,6 +2831,8 @@ Variable ecolumn_as_Column : EC -> C.               (* an ecolumn.Column stored 
 Variable col_Len : C -> outcome Z.                  (* c.Len() of a column.Column: below the abstraction boundary *)
 Variable sort_strings : list bytes -> list bytes.   (* sort.Strings(s), in place *)
 Variable f64_zero : F64.                            (* the float64 zero value *)
+Variable dt_zero : DT.                              (* the zero types.DataType *)
+Variable gq_sprintf : bytes -> bytes.               (* fmt.Sprintf(format, ..): a text, represented by its format string *)
 Variable id_int : A -> Z.                           (* a row id used as a position: s[i] for i of index.Int *)
 
 (* qfstrings.CheckName in its translated form (Gen/GenFuncs.v) *)
